@@ -180,6 +180,26 @@ func runFault(d *big.Int, msg []byte, j int, with bool, mode, errKind string) st
 // runDerive: every private-key route for d.
 func runDerive(d *big.Int) string {
 	q := ref.BaseMul(d)
+	// one source object, several derivations: every derived key is the same even-y key, and the ECDSA key it was
+	// derived from still answers with its own (possibly odd-y) point afterwards
+	esk := lib.MkPriv(d)
+	for i := 0; i < 4; i++ {
+		var pk *bitcoin.SchnorrPublicKey
+		if i%2 == 0 {
+			pk = bitcoin.NewSchnorrPrivateKeyFromECDSA(esk).PublicKey()
+		} else {
+			pk = bitcoin.NewSchnorrPublicKeyFromECDSA(esk.PublicKey())
+		}
+		if m := checkPubKey(pk, q); m != "" {
+			return fmt.Sprintf("derivation #%d from one ECDSA key object: %s", i+1, m)
+		}
+		if m := lib.CheckPoint(esk.PublicKey().Point(), q); m != "" {
+			return fmt.Sprintf("the ECDSA key's own point after %d Schnorr derivations from it: %s", i+1, m)
+		}
+		if !bytes.Equal(esk.PublicKey().Bytes(), q.Uncompressed()) {
+			return fmt.Sprintf("the ECDSA key's own encoding after %d Schnorr derivations from it", i+1)
+		}
+	}
 	for route := 0; route < 2; route++ {
 		sk, err := mkSK(d, route)
 		if err != nil {
@@ -242,6 +262,18 @@ func runDerivePub(q ref.Pt, z *big.Int) string {
 	k2 := bitcoin.NewSchnorrPublicKeyFromECDSA(epk)
 	if m := checkPubKey(k2, q); m != "" {
 		return "FromECDSA: " + m
+	}
+	for i := 2; i <= 3; i++ { // the same source object again: earlier and later derivations agree
+		kn := bitcoin.NewSchnorrPublicKeyFromECDSA(epk)
+		if m := checkPubKey(kn, q); m != "" {
+			return fmt.Sprintf("FromECDSA, derivation #%d from one key object: %s", i, m)
+		}
+		if m := checkPubKey(k2, q); m != "" {
+			return fmt.Sprintf("FromECDSA, the first derived key after derivation #%d: %s", i, m)
+		}
+		if m := lib.CheckPoint(epk.Point(), q); m != "" {
+			return fmt.Sprintf("the ECDSA key's own point after %d derivations: %s", i, m)
+		}
 	}
 	if !bytes.Equal(epk.Bytes(), q.Uncompressed()) {
 		return "ECDSA public key changed by deriving a Schnorr key from it"
